@@ -71,6 +71,7 @@ func VH_C14_roundtrip() {
 	// the header and before the trailing separator
 	vAssume(int(fraglen) >= plen+2)
 	frags := snd.fragment(encodedMessage(data), fraglen)
+	vObserve("frags", len(frags), frags[0], frags[len(frags)-1])
 
 	if L <= int(fraglen) {
 		vAssert("O0-unfragmented-identity", vAll(len(frags) == 1, vBytesEq(frags[0], data)))
@@ -120,6 +121,7 @@ func VH_C14_long() {
 	vAssume(vAll(int(fraglen) >= lo, int(fraglen) < lo+width))
 	frags := snd.fragment(encodedMessage(data), fraglen)
 	vAssert("O5-count", vAll(len(frags) >= 2, len(frags) <= 65535))
+	vObserve("long", len(frags), frags[1][:60], len(frags[len(frags)-1]))
 	var re []byte
 	plen := 17
 	if v3 {
@@ -205,6 +207,7 @@ func VH_C14_automaton() {
 
 	plain, toSend, err := c.Receive(msg)
 	after := c.fragmentationContext
+	vObserve("step", msg, plain, len(toSend), err == nil, after.frag, after.currentIndex, after.currentLen)
 
 	// reference automaton (OTR v3 spec, "Receiving Fragments")
 	var wantFrag []byte
